@@ -303,6 +303,10 @@ def run_check(mod, modname, prop, tier, seed, jobs):
     budget = getattr(mod, "BUDGET_S", DEFAULT_BUDGET).get(tier, DEFAULT_BUDGET[tier])
     budget = float(os.environ.get("VERIF_BUDGET_S", budget))
     shard_list = list(mod.shards(tier))
+    # the budget is for exploring; listing the shards (which for some checks includes a discovery stage)
+    # is not counted, and at least one shard is always completed, so that a stop by the budget on a
+    # loaded machine still leaves a truthful, non-empty report instead of an internal error
+    t_run = time.time()
     n = len(shard_list)
     if n == 0:
         sys.stderr.write("internal error: no shards\n"); return 2
@@ -330,7 +334,7 @@ def run_check(mod, modname, prop, tier, seed, jobs):
     tasks = [(modname, k, shard_list[k], tier) for k in order]
     if nproc == 1:
         for t in tasks:
-            if time.time() - t0 > budget:
+            if time.time() - t_run > budget and (packed or errors):
                 timed_out = True
                 break
             k, pk, err, dt = _worker(t)
@@ -348,8 +352,10 @@ def run_check(mod, modname, prop, tier, seed, jobs):
         try:
             it = pool.imap_unordered(_worker, tasks, chunksize=1)
             while True:
-                remaining = budget - (time.time() - t0)
-                if remaining <= 0:
+                remaining = budget - (time.time() - t_run)
+                if not (packed or errors):
+                    remaining = None          # the first shard is always awaited
+                elif remaining <= 0:
                     timed_out = True
                     break
                 try:
